@@ -5,38 +5,48 @@ import Librfn.Model.FibreTypes
 Written from the property text in `properties.jsonl`, **not** from `fibre.c` / `messageq.c`.  It knows nothing
 of message queues, slots, flags, counters or program points: it is a *monitor* over the calls and returns an
 observer of the system sees, in the order in which they happen (an interrupt handler runs to completion, so its
-return is one instant between two instants of the interrupted context):
+effects and its return are instants between two instants of the interrupted context):
 
 * `owed` — "if `fibre_run_atomic(f)` returns true … then `f` is dispatched by a subsequent
   `fibre_scheduler_next` without any further stimulus (unless a later `fibre_kill` withdraws the request)":
-  the set of fibres that have an accepted request which has not since been followed by a dispatch or a kill.
+  the fibres that have an accepted request which has not since been followed by a dispatch or a kill, each with the
+  number of complete scheduling passes it has been waiting for.  "Without further stimulus" + FIFO dispatch (C01)
+  means a bound: with `nf` fibres in the system at most `nf - 1` are ahead of it once the request has joined the
+  run queue, which happens in the first pass that begins after the request — so a request outstanding at the
+  beginning of `nf` consecutive passes that all ran to completion has been *starved*.  (Passes during which a
+  sender on another thread was between its claim and its send are not counted: the queue is FIFO in claim order, so
+  dispatch may be deferred while an earlier claimer has not yet sent — DESIGN §6 C06.)
 * `evq` — "every event passed with `fibre_eventq_claim` and a `fibre_eventq_send` that returns true is
   received by the owning fibre exactly once, intact and in send order": the FIFO of events handed out by
   claim and not yet received, identified by the stamp the sender wrote into them.  (The order of a queue of
   claimed buffers is the order of the claims; it is the order of the sends whenever claim…send sections do
   not overlap, and C04 proves claim order for the ones that do.)
 * `mustGet` — events whose send returned true and that the handler has not yet processed: they must all
-  have been processed once the system is quiescent.
-* `snap` / `yieldedNow` — C03: "the value returned is `t` whenever any fibre is runnable on return — including
-  the fibre that just yielded and any interrupt-context run request that completed before the scheduler's
-  final check".
+  have been processed once the system is quiescent (unless the handler was killed meanwhile).
+* `snap` — C03: "the value returned is `t` whenever any fibre is runnable on return — including the fibre that
+  just yielded and any interrupt-context run request that completed before the scheduler's final check".  The
+  final check lies after the return of the dispatched fibre, so requests outstanding when the pass began, when the
+  dispatched fibre returned, or when the scheduler was last seen looking at the interrupt-context queue, completed
+  before it.
 -/
 namespace Librfn.Spec.IsrSpec
 open Librfn.Sched (Fid)
 
 /-- what an observer sees -/
 inductive Obs
-  | accepted (f : Fid)            -- `fibre_run_atomic(f)` returned true
-  | rejected (f : Fid)            -- … returned false
+  | accepted (f : Fid)            -- a `fibre_run_atomic(f)` that returns true takes effect
+  | rejected (f : Fid)            -- `fibre_run_atomic(f)` returned false
   | dispatched (f : Fid)          -- the entry point of `f` is invoked by `fibre_scheduler_next`
   | killed (f : Fid)              -- `fibre_kill(f)` withdrew `f`'s run requests
   | evClaimed (stamp : Nat)       -- `fibre_eventq_claim` handed out a buffer; the sender stamps it
   | evSent (stamp : Nat) (ok : Bool)   -- `fibre_eventq_send` returned `ok`
   | evProcessed (stamp : Nat)     -- the handler fibre received an event and read `stamp` from it
   | passBegin                     -- `fibre_scheduler_next(t)` is entered
-  | finalCheck                    -- the scheduler looks at the interrupt-context queue (the last look of a pass is the final check)
-  | bodyYielded                   -- the dispatched fibre returned *yielded*
+  | looked                        -- the scheduler looks at the interrupt-context queue
+  | bodyReturned (yielded : Bool) -- the dispatched fibre returned (*yielded* or not)
   | passEnd (onTime : Bool)       -- `fibre_scheduler_next(t)` returns; `onTime` ⇔ the value returned is `t`
+  | threadBegin                   -- a sender on another thread enters fibre_run_atomic / claim…send
+  | threadEnd                     -- … and returns
   deriving DecidableEq, Repr
 
 inductive Verdict
@@ -44,16 +54,29 @@ inductive Verdict
   | eventOutOfOrder (got : Nat) (expected : Nat)   -- reordered, lost (skipped), duplicated or corrupted event
   | eventFromNowhere (got : Nat)                    -- received an event nobody claimed (duplicate / corrupted)
   | oversleeps                                      -- a pass returned a late wake-up although a request was outstanding
+  | starved (f : Fid)                               -- `nf` complete passes began with the request outstanding
   deriving DecidableEq, Repr
 
 structure A where
-  owed : List Fid := []
+  /-- number of fibres in the system -/
+  nf : Nat := 8
+  /-- the fibre the event queue belongs to -/
+  handler : Fid := 0
+  /-- fibres owed a dispatch, with the number of complete undisturbed passes that began while they were owed -/
+  owed : List (Fid × Nat) := []
   evq : List Nat := []
   mustGet : List Nat := []
+  /-- events claimed since the handler was last killed (a kill while a send is in progress may withdraw its wake-up) -/
+  fresh : List Nat := []
   got : List Nat := []
-  /-- requests outstanding at the latest look at the interrupt-context queue in the current pass -/
-  snap : Option (List Fid) := none
+  /-- requests outstanding at the latest instant known to precede the scheduler's final check of the current pass -/
+  snap : List Fid := []
+  /-- fibres owed when the current pass began -/
+  atBegin : List Fid := []
   yieldedNow : Bool := false
+  threads : Nat := 0
+  /-- a thread sender was in flight at some instant of the current pass -/
+  disturbed : Bool := false
   verdict : Verdict := .ok
   deriving Repr
 
@@ -61,28 +84,44 @@ def init : A := {}
 
 def A.flag (a : A) (v : Verdict) : A := if a.verdict = .ok then { a with verdict := v } else a
 
+def A.owedFids (a : A) : List Fid := a.owed.map Prod.fst
+
+/-- the request for `f` is satisfied (or withdrawn); a later request for `f` is a new one -/
+def A.discharge (a : A) (f : Fid) : A :=
+  { a with owed := a.owed.filter (fun x => x.1 ≠ f), atBegin := a.atBegin.filter (· ≠ f), snap := a.snap.filter (· ≠ f) }
+
 def A.step (a : A) : Obs → A
-  | .accepted f => { a with owed := if f ∈ a.owed then a.owed else a.owed ++ [f] }
+  | .accepted f => if f ∈ a.owedFids then a else { a with owed := a.owed ++ [(f, 0)] }
   | .rejected _ => a
-  | .dispatched f => { a with owed := a.owed.filter (· ≠ f) }
-  | .killed f => { a with owed := a.owed.filter (· ≠ f) }
-  | .evClaimed st => { a with evq := a.evq ++ [st] }
-  | .evSent st ok => if ok ∧ st ∉ a.got then { a with mustGet := a.mustGet ++ [st] } else a
+  | .dispatched f => a.discharge f
+  | .killed f =>
+    -- the handler's pending events are no longer promised until something wakes it again
+    if f = a.handler then { a.discharge f with mustGet := [], fresh := [] } else a.discharge f
+  | .evClaimed st => { a with evq := a.evq ++ [st], fresh := a.fresh ++ [st] }
+  | .evSent st ok => if ok ∧ st ∉ a.got ∧ st ∈ a.fresh then { a with mustGet := a.mustGet ++ [st] } else a
   | .evProcessed st =>
     match a.evq with
     | [] => a.flag (.eventFromNowhere st)
     | x :: r =>
-      if x = st then { a with evq := r, got := a.got ++ [st], mustGet := a.mustGet.filter (· ≠ st) }
+      if x = st then { a with evq := r, got := a.got ++ [st], mustGet := a.mustGet.filter (· ≠ st), fresh := a.fresh.filter (· ≠ st) }
       else a.flag (.eventOutOfOrder st x)
-  | .passBegin => { a with snap := none, yieldedNow := false }
-  | .finalCheck => { a with snap := some a.owed }
-  | .bodyYielded => { a with yieldedNow := true }
+  | .passBegin => { a with snap := a.owedFids, atBegin := a.owedFids, yieldedNow := false, disturbed := decide (a.threads > 0) }
+  | .looked => { a with snap := a.owedFids }
+  | .bodyReturned y => { a with snap := a.owedFids, yieldedNow := y }
   | .passEnd onTime =>
     -- requests that completed before the final check and are still outstanding at return
-    let pending := match a.snap with
-      | some l => l.any (fun f => decide (f ∈ a.owed))
-      | none => false
-    if (a.yieldedNow || pending) && !onTime then a.flag .oversleeps else a
+    let pending := a.snap.any (fun f => decide (f ∈ a.owedFids))
+    -- (while a sender on another thread sits between its claim and its send, later requests are hidden behind its
+    --  unsent buffer: the property's interrupt clause speaks of handlers that run to completion)
+    let a1 := if (a.yieldedNow || (pending && !a.disturbed)) && !onTime then a.flag .oversleeps else a
+    if a1.disturbed then a1 else
+    -- one more complete pass began (and ended) with these requests outstanding
+    let owed' := a1.owed.map (fun x => if x.1 ∈ a1.atBegin then (x.1, x.2 + 1) else x)
+    match owed'.find? (fun x => decide (x.2 ≥ a1.nf)) with
+    | some x => { a1 with owed := owed' }.flag (.starved x.1)
+    | none => { a1 with owed := owed' }
+  | .threadBegin => { a with threads := a.threads + 1, disturbed := true }
+  | .threadEnd => { a with threads := a.threads - 1 }
 
 def run (a : A) (l : List Obs) : A := l.foldl A.step a
 
